@@ -25,13 +25,15 @@ RULE = (
     "exist, bare prefix, deep nesting) x receiver {container, subgroup} x state {fresh, with metadata} x driver "
     "{h5py, IH5}: the call must raise, the raw tree must be byte-identical afterwards, no internal node may be "
     "returned; (b) generated container histories with listing probes at every group after every step: keys/len/iter/"
-    "values/items/get/in/visit/visititems must equal the reference model exactly and the user tree the plain reference "
-    "tree; (c) every public attribute of the raw group/file class outside the protocol raises AttributeError. "
+    "values/items/reversed/get/in/visit/visititems must equal the reference model exactly, a member count stated by "
+    "repr/str/format must be the user-visible one, and the user tree must equal the plain reference tree; nodes handed "
+    "out for stored metadata objects are not operable; (c) every public attribute of the raw group/file class outside the protocol raises AttributeError. "
     "Non-trivial = matrix cell whose reserved segment is not the first segment or arrives through a keyword/node "
     "object, or a history step with metadata present at a probed group; distinct by cell / (steps, probes)"
 )
 ASSUMPTIONS = ["which exception is raised is not asserted", "__wrapped__ access is documented as bypass and not asserted"]
-REQUIRED_CLASSES = {"all": ["matrix_cell", "cell_keyword_or_object", "probe_group_with_metadata", "attr_outside_protocol"]}
+REQUIRED_CLASSES = {"all": ["matrix_cell", "cell_keyword_or_object", "probe_group_with_metadata", "attr_outside_protocol",
+                            "text_form_states_member_count"]}
 BUDGET_S = {"quick": 900, "thorough": 3 * 3600}
 
 
